@@ -133,3 +133,57 @@ def h_select(c, version):
 
 
 h_select.must_cover = ["returned"]
+
+
+QS = "tlexport.quic.quic_session.QuicSession"
+
+
+@harness(["C09", "C04"], "keylog.unbounded.quic_selection", functions=[QS + ".set_tls_decryptors"])
+def h_quic_select(c):
+    """QuicSession.set_tls_decryptors hands key derivation, for a key log of ANY length, exactly the lines whose client random spells
+    the connection's client random (upper- or lower-case hex), in key-log order; the key log is not modified"""
+    if c.native:
+        return
+    from pyvc.api import SpecList
+    from contracts.keylog import HEX, spelled_bytes
+    n = c.int("n_keylog_lines", 0, None)
+    F = Filter(c, n)
+    cr = c.bytes("client_random", length=32)
+
+    def key_at(q):
+        r = c.regstr("client_random_of_line", HEX + "{64}")
+        k = c.obj(KR + ".Key", label="CLIENT_TRAFFIC_SECRET_0", client_random=r, value=c.regstr("secret_of_line", HEX + "{64}"), __idx=q)
+        c.assume(F.accept(q) == eq(spelled_bytes(c, r), cr))
+        return k
+    keylog = SpecList("keylog", n, key_at, lambda x, q: eq(x.attrs["__idx"], q))
+
+    def sel_list(cnt):
+        return SpecList("session_keys", cnt, lambda j: c.obj(KR + ".Key", label="", client_random="", value="", __idx=F.idx(j)),
+                        lambda x, j: hasattr(x, "attrs") and "__idx" in x.attrs and eq(x.attrs["__idx"], F.idx(j)))
+
+    def sel_is(S, cnt):
+        if isinstance(S, SpecList):
+            return band(S.equals_spec(cnt), len(S.lead) == 0)
+        if isinstance(S, list):
+            return band(eq(len(S), cnt), *[sel_list(0).match(x, j) for j, x in enumerate(S)])
+        return False
+    c.loop(QS + ".set_tls_decryptors", "for key in self.keylog", invariant=lambda e: sel_is(e.session_keys, F.cnt(e.it)),
+           havoc={"session_keys": lambda cur: sel_list(c.fresh_int("n_selected", 0, None))},
+           ghost_step=lambda phase, e: F.step_facts(e.it) if phase == "havoc" else None)
+    got = []
+
+    def s_dev(ctx, key_length, secret_list, hash_fun, version):
+        got.append(secret_list)
+        ctx.raise_("UnboundLocalError")          # whatever derivation does next is the subject of quic.keystate.install / keys.quic_traffic
+    c.summary_override("tlexport.quic.quic_key_generation.dev_quic_keys", s_dev)
+    v1 = c.enum("tlexport.quic.quic_decode.QuicVersion", "V1")
+    s = c.obj(QS, keylog=keylog, quic_version=v1, keys={}, decryptors={}, can_decrypt=True, hash_fun=None, cipher=None, key_length=None, early_traffic_keys=False)
+    out = c.method(s, "set_tls_decryptors", cr, c.bytes_of([0x13, 0x01]))
+    c.ensure("derivation_reached", len(got) == 1)
+    if len(got) == 1:
+        c.ensure("exactly_the_matching_lines_in_key_log_order", sel_is(got[0], F.cnt(n)))
+    c.ensure("key_log_not_modified", c.get(s, "keylog") is keylog and not keylog.tail and not keylog.cleared and c.prove(keylog.count == n))
+    c.cover("returned")
+
+
+h_quic_select.must_cover = ["returned"]
